@@ -48,7 +48,10 @@ def judge(c, slicer, data, result, exc, tag="slice"):
     if constructed is not None:
         live = {k: getattr(slicer, k) for k in constructed}
         same = all((live[k] is constructed[k]) or (live[k] == constructed[k]) for k in constructed)
-        c.check(f"{tag}.configuration-unchanged", bool(same), "slice_ changed the slicer's own configuration (the next call is sliced differently)", config_as_constructed={k: (v if not callable(v) else getattr(v, "__name__", "callable")) for k, v in constructed.items()}, config_now={k: (v if not callable(v) else getattr(v, "__name__", "callable")) for k, v in live.items()})
+        if not same:
+            # not a violation by itself (the property does not forbid normalising a stored option); what counts is that
+            # every call is still sliced as CONFIGURED - so the call is judged against the configuration as constructed
+            c.count(f"{tag}.configuration-rewritten-by-slice_(judged-against-constructed)")
         if not same:
             # judge against the configuration as constructed
             slicer = copy.copy(slicer)
